@@ -315,7 +315,6 @@ def run(run_, pkg, tier):
         gradient_index_rule(run_, pkg)
         # scaling all information matrices scales chi^2: the stopping rule must depend on chi^2 only through the scale-free ratio
         from .. import optim_rules
-        oa = optim_rules.analyse(pkg)
-        for f in oa.findings:
-            if f.key.startswith(("C12-T2/early-return-predicate", "C12-T2/converged@post", "C12-T2/early-return@")):
-                run_.check(f.ok, "C08-c/stopping-rule-scale-free/" + f.key, "C08-c-stopping-rule-scale-free", f.what, where=f.where)
+        optim_rules.optimize_verdicts(run_, pkg, "C08", lambda f: ("C08-c/stopping-rule-scale-free/" + f.key, "C08-c-stopping-rule-scale-free")
+                                      if f.key.startswith(("C12-T2/early-return-predicate", "C12-T2/converged@post", "C12-T2/early-return@")) else None,
+                                      rule_sem="C08-c-stopping-rule-scale-free")
